@@ -394,7 +394,7 @@ def _while_progress(R, f, lp, cfg, cons, measure_var, measure_len, extra=None):
 
 
 @rule('P8', 'loop-variant: every while loop makes progress on every path; no container is changed while it is iterated; index deletions '
-            'run in descending order; the recursive scrubber is guarded', floor=8)
+            'run in descending order; the recursive scrubber is guarded', floor=6)
 def P8(m, R):
     ro = m.roles
     # (1) tokenizer loops
@@ -631,12 +631,22 @@ def E8(m, R):
                     rnodes.append((nd, 'the settings scrubber (ValueError / TypeError on a bad setting)'))
                 elif cn == 'int' and isinstance(x.func, ast.Name):
                     rnodes.append((nd, 'int() (ValueError)'))
+                elif False:
+                    pass
                 elif cn == '_shift_settings_idx':
                     # named exception (DESIGN 2.4): raises only for a negative count; here the count is num or floor(num/2) under `num > 0`
                     arg = norm(x.args[0]) if x.args else ''
                     guarded = any(isinstance(p, ast.If) and re.match(r'^\w+ > 0$', norm(p.test)) for p in _parents(x))
                     if not guarded:
                         rnodes.append((nd, '_shift_settings_idx (ValueError for a negative count) outside a `num > 0` guard'))
+        # building the fill text (str * int) raises OverflowError / MemoryError for a huge width -- the same error str raises
+        fillp = f.own_params()[1] if name in ('ljust', 'rjust', 'center') else None
+        if fillp:
+            for nd in cfg.nodes:
+                if nd.kind != 'stmt' or nd.stmt is None:
+                    continue
+                if any(isinstance(x, ast.BinOp) and isinstance(x.op, ast.Mult) and (norm(x.left) == fillp or norm(x.right) == fillp) for x in ast.walk(nd.stmt)):
+                    rnodes.append((nd, 'building the fill text (OverflowError / MemoryError for a huge width)'))
         bad = []
         for wid, (wn, desc) in wnodes.items():
             reach = cfg.reachable_from(wn)
